@@ -28,7 +28,8 @@ RULE = ("one run = one history of <= 25 operations (group creations of all "
         "explicit raises of the variable count) on a CNF, OPB or "
         "BaseCNF+VariablesManager; after every step the new group (ids, "
         "index enumeration, index<->id in both directions for +/- literals, "
-        "wildcard patterns, out-of-domain indices) and the complete name "
+        "wildcard patterns, out-of-domain indices and wildcard patterns "
+        "with an out-of-domain coordinate) and the complete name "
         "table are compared with the reference model. Non-trivial: at least "
         "two non-empty groups and at least one anonymous gap or refused "
         "creation; distinct = distinct (class, operation list).")
